@@ -280,6 +280,33 @@ impl World {
         });
     }
 
+    /// Like the `spawn_shutdown_*` functions, but the task id is returned so that the caller can poll
+    /// just this task (the request is then queued at the broker while the broker does not run).
+    pub fn spawn_shutdown_broker_task(&mut self) -> TaskId {
+        let mut h = self.handle.clone();
+        self.aux += 1;
+        self.exec.spawn(format!("aux{}", self.aux), async move {
+            h.shutdown().await;
+        })
+    }
+
+    pub fn spawn_shutdown_idle_task(&mut self) -> TaskId {
+        let mut h = self.handle.clone();
+        self.aux += 1;
+        self.exec.spawn(format!("aux{}", self.aux), async move {
+            h.shutdown_idle().await;
+        })
+    }
+
+    pub fn spawn_shutdown_conn_task(&mut self, i: usize) -> TaskId {
+        let mut h = self.handle.clone();
+        let ch = self.conns[i].handle.clone();
+        self.aux += 1;
+        self.exec.spawn(format!("aux{}", self.aux), async move {
+            let _ = h.shutdown_connection(&ch).await;
+        })
+    }
+
     pub fn run(&mut self, rng: &mut Rng, max_steps: u64) -> RunOutcome {
         let r = self.exec.run_until_quiescent(rng, max_steps);
         self.drain_all();
